@@ -140,6 +140,9 @@ def main(ctx, replay=None):
     users += [{"qha": {"input": "x", "settings": {"NT": 3}}, "elast": {"input": "y"}},
               {"qha": {"settings": {"T_MIN": 300}}, "elast": {"settings": {"symmetry": {"system": "cubic"}}}, "output": {"pressure_base": ["cij"]}},
               {"qha": {}, "elast": {}},
+              # grid steps without their sampling steps (and the reverse): what is left out comes from the packaged defaults
+              {"qha": {"settings": {"DT": 25, "DELTA_P": 0.5}}, "elast": {}},
+              {"qha": {"settings": {"DT_SAMPLE": 50, "P_MIN": -5, "NTV": 41}}, "elast": {"settings": {"symmetry": {"ignore_rank": True}}}},
               {"qha": {"input": "x"}, "elast": {"input": "y", "settings": {"mode_gamma": {"interpolator": "spline"}}}},
               {"qha": {"input": "x"}, "elast": {"input": "y", "settings": {"mode_gamma": {"order": 4}}}}]
     for uc in users:
